@@ -256,8 +256,16 @@ func (p c02) sortCase(c *core.C, vs []model.Ver, sseed uint64) {
 				c.Failf("two shuffles of the same multiset sort to non-equivalent elements at position %d: %v vs %v", i, results[0][i], results[round][i])
 				break
 			}
-			if results[0][i] != results[round][i] {
+
+		}
+	}
+	// (decided on the input, not on what the sort made of it) the multiset holds differently spelled equal versions
+equiv:
+	for i := range vs {
+		for j := i + 1; j < len(vs); j++ {
+			if sgn, _ := model.RefCmp(vs[i], vs[j]); sgn == 0 && encVer(vs[i]) != encVer(vs[j]) {
 				c.Cover("sort-equivalent-runs")
+				break equiv
 			}
 		}
 	}
